@@ -272,7 +272,15 @@ func (o *obj) BatchWrite(bm kvstore.BatchedMutations) {
 		panic(err)
 	}
 }
-func (o *obj) BatchWriteDone() { o.s.m.wlog(ev{K: 'D', P: -1, O: o.id}) }
+func (o *obj) BatchWriteDone() {
+	// a gated schedule may hold the writer inside the first acknowledgement of a run (a slow
+	// BatchWriteDone); the event is logged when the call is entered, as always
+	o.s.m.wlog(ev{K: 'D', P: -1, O: o.id})
+	if g := o.s.doneGate; g != nil && g.used.CompareAndSwap(false, true) {
+		close(g.reached)
+		<-g.release
+	}
+}
 func (o *obj) BatchWriteScheduled() bool {
 	if o.s.m.bare {
 		return !o.scheduled.CompareAndSwap(false, true)
@@ -379,6 +387,7 @@ type scen struct {
 	// writerIdle: the run ended by rule R3 with the writer goroutine alive but idle for ever
 	writerIdle bool
 	abortAfter bool
+	doneGate   *gate // set before the first Enqueue
 }
 
 var cur atomic.Pointer[scen]
@@ -1165,6 +1174,8 @@ func runCase(c *vf.Ctx, cs *caseRec) (fps []string, ok bool) {
 		return runDupFlush(c, cs)
 	case "coldstart":
 		return runColdStart(c, cs)
+	case "slowdone":
+		return runSlowDone(c, cs)
 	case "stress":
 		return runStress(c, cs)
 	}
@@ -1348,6 +1359,58 @@ func runDupFlush(c *vf.Ctx, cs *caseRec) ([]string, bool) {
 // yield-hook jitter; each may follow up with a few more Enqueues. Stop is invoked only after all
 // producers have returned, so every one of these Enqueues returned before Stop was invoked and
 // must be written, committed and acknowledged before Stop returns (checks 1-4 unchanged).
+// runSlowDone: 2-4 objects are enqueued, the writer is held inside the first BatchWriteDone of the
+// run (objects of the same batch are committed but not yet acknowledged, later ones not written
+// yet), StopBatchWriter is invoked and must not return before all of them are acknowledged; the
+// writer is released once Stop has returned or parked in WaitGroup.Wait.
+func runSlowDone(c *vf.Ctx, cs *caseRec) ([]string, bool) {
+	s := newScen(c, cs, cs.InFlight)
+	g := &gate{reached: make(chan struct{}), release: make(chan struct{})}
+	s.doneGate = g
+	cur.Store(s)
+	defer cur.Store(nil)
+	s.self("main")
+	p := s.spawn("producer", 0, nil, func(a *actor) {
+		for _, o := range s.objs {
+			s.enqueue(a, o)
+		}
+	})
+	w := waiter{m: s.m}
+	for !closed(g.reached) {
+		if !w.pause() {
+			c.Inconclusive(cs.name() + ": case guard expired waiting for the first BatchWriteDone")
+			return nil, false
+		}
+	}
+	if !s.probeWriter() {
+		close(g.release)
+		return nil, false
+	}
+	// with queue size 0 the producer may still be sending to the held writer: its remaining
+	// Enqueues then overlap Stop, which is fine (they are not demanded)
+	st := s.spawn("stopper", 0, nil, func(a *actor) { s.stop(a) })
+	for !closed(st.done) {
+		if sg, found := gdump.Find(s.snapshot(), st.gid.Load()); found && inStopWait(sg) {
+			break
+		}
+		if !w.pause() {
+			c.Inconclusive(cs.name() + ": case guard expired waiting for StopBatchWriter to return or park")
+			close(g.release)
+			return nil, false
+		}
+	}
+	c.Count("slowdone_windows_entered", 1)
+	c.Count("slowdone_stop:"+map[bool]string{true: "returned-while-writer-held", false: "parked"}[closed(st.done)], 1)
+	close(g.release)
+	_ = p
+	if !s.finishWait() {
+		return nil, false
+	}
+	return s.report("slowdone"), !s.abortAfter
+}
+
+var sink atomic.Int64
+
 func runColdStart(c *vf.Ctx, cs *caseRec) ([]string, bool) {
 	nobj := cs.Producers
 	if cs.SameObj {
@@ -1363,14 +1426,23 @@ func runColdStart(c *vf.Ctx, cs *caseRec) ([]string, bool) {
 	for p := 0; p < cs.Producers; p++ {
 		p := p
 		prods = append(prods, s.spawn("producer", cs.CaseSeed*131+int64(p)+1, start, func(a *actor) {
+			// the barrier sits directly in front of the call (after the harness' own logging, whose
+			// mutex would otherwise stagger the producers)
+			o := s.objs[p%nobj]
+			v := o.version.Add(1)
+			s.m.log(ev{K: 'E', P: a.idx, O: o.id, V: v})
+			spin := a.rng.Intn(4) * a.rng.Intn(60)
 			ready.Add(1)
 			for ready.Load() < int32(cs.Producers) {
-				runtime.Gosched()
+				if lowParallelism {
+					runtime.Gosched()
+				}
 			}
-			for i := a.rng.Intn(3); i > 0; i-- {
-				runtime.Gosched()
+			for i := 0; i < spin; i++ {
+				sink.Add(1) // a few to a few hundred nanoseconds of skew
 			}
-			s.enqueue(a, s.objs[p%nobj])
+			s.bw.Enqueue(o)
+			s.m.log(ev{K: 'e', P: a.idx, O: o.id})
 			for i := a.rng.Intn(3); i > 0; i-- {
 				s.enqueue(a, s.objs[a.rng.Intn(nobj)])
 			}
@@ -1684,9 +1756,19 @@ func genCases(c *vf.Ctx) (plain, race []caseRec) {
 		}
 		return cs
 	}
-	for rep := c.Pick(4, 60); rep > 0; rep-- {
+	for rep := c.Pick(10, 100); rep > 0; rep-- {
 		for _, cf := range cfgs {
 			plain = append(plain, coldstart(cf))
+		}
+	}
+	slowdone := func(cf cfg) caseRec {
+		cs := mk("slowdone", cf)
+		cs.InFlight = 2 + rng.Intn(3)
+		return cs
+	}
+	for rep := c.Pick(2, 30); rep > 0; rep-- {
+		for _, cf := range cfgs {
+			plain = append(plain, slowdone(cf))
 		}
 	}
 	dupflush := func(cf cfg) caseRec {
@@ -1710,7 +1792,7 @@ func genCases(c *vf.Ctx) (plain, race []caseRec) {
 		for _, cf := range cfgs {
 			race = append(race, asRace(gated(cf, pointA), false), asRace(gated(cf, pointB), false))
 			race = append(race, asRace(enqstop(cf), rep%2 == 0), asRace(enqstop(cf), true))
-			race = append(race, asRace(dupflush(cf), false))
+			race = append(race, asRace(dupflush(cf), false), asRace(slowdone(cf), false))
 			race = append(race, asRace(coldstart(cf), false), asRace(coldstart(cf), true))
 		}
 	}
@@ -1901,7 +1983,7 @@ func run(c *vf.Ctx) {
 		replay(c)
 		return
 	}
-	c.SetRule("one evaluation = one run of the real BatchedWriter (mapdb behind a logging wrapper) whose merged event log is checked after all callers returned or were decided blocked for ever and the writer goroutine exited; runs are gated (producer parked at bw.enqueue.afterRunningCheck / bw.enqueue.beforeSend while StopBatchWriter completes or parks; queue {0,1,2,256} x batch {1,2,5,1000} x time-out {0,1ns,1ms,20ms,-1ms} x 0-3 objects in flight x release early/late), 'Enqueue immediately followed by Stop', duplicate-Enqueue-retracts-while-a-Flush-is-served (one Enqueue held at beforeSend, a duplicate held inside BatchWriteScheduled after it found the flag set), cold start (fresh writer, 2-8 producers released together for their very first Enqueue, Stop only after all returned), and seeded stress (1-8 producers, 1-4 objects, Flush, jittered yields, Stop at a random operation count), in plain and -race builds; distinct_nontrivial counts distinct (scenario, gate state, queue class, order of yield/flag/send-return/Stop-return/BatchWrite/Commit/Done/Cancel/Batched events from Stop's invocation on) of runs in which at least one Enqueue overlapped StopBatchWriter or an accepted object was still unwritten when Stop was invoked")
+	c.SetRule("one evaluation = one run of the real BatchedWriter (mapdb behind a logging wrapper) whose merged event log is checked after all callers returned or were decided blocked for ever and the writer goroutine exited; runs are gated (producer parked at bw.enqueue.afterRunningCheck / bw.enqueue.beforeSend while StopBatchWriter completes or parks; queue {0,1,2,256} x batch {1,2,5,1000} x time-out {0,1ns,1ms,20ms,-1ms} x 0-3 objects in flight x release early/late), 'Enqueue immediately followed by Stop', duplicate-Enqueue-retracts-while-a-Flush-is-served (one Enqueue held at beforeSend, a duplicate held inside BatchWriteScheduled after it found the flag set), slow-acknowledgement (writer held inside the first BatchWriteDone while Stop is invoked), cold start (fresh writer, 2-8 producers released together for their very first Enqueue, Stop only after all returned), and seeded stress (1-8 producers, 1-4 objects, Flush, jittered yields, Stop at a random operation count), in plain and -race builds; distinct_nontrivial counts distinct (scenario, gate state, queue class, order of yield/flag/send-return/Stop-return/BatchWrite/Commit/Done/Cancel/Batched events from Stop's invocation on) of runs in which at least one Enqueue overlapped StopBatchWriter or an accepted object was still unwritten when Stop was invoked")
 	plain, race := genCases(c)
 	c.Count("cases_generated_plain", len(plain))
 	c.Count("cases_generated_race", len(race))
@@ -1947,8 +2029,9 @@ func run(c *vf.Ctx) {
 	c.Require("flush_calls", par(100))
 	c.Require("runs_stress", par(c.Pick(1700, 17000)))
 	c.Require("dupflush_windows_entered", c.Pick(200, 3000))
-	c.Require("coldstart_rounds", c.Pick(400, 6000))
-	c.Require("coldstart_rounds_with_overlap", par(c.Pick(100, 1500)))
+	c.Require("slowdone_windows_entered", c.Pick(200, 3000))
+	c.Require("coldstart_rounds", c.Pick(800, 9000))
+	c.Require("coldstart_rounds_with_overlap", par(c.Pick(300, 3000)))
 	c.Require("writer_probes_seen", par(c.Pick(3000, 40000))) // blindness self-check: the rules did identify writer goroutines
 	for _, t := range timeouts {
 		c.Require("runs_gated_timeout="+t.String(), c.Pick(250, 3500))
